@@ -221,6 +221,23 @@ async def context_form():
     return res
 
 
+async def default_ports():
+    """a bridge constructed without a port list: its configured ports are the four of the documentation; running = all four held, stopped = all four free"""
+    res = []
+    b = SwitcherBridge(lambda d: None)
+    try:
+        await asyncio.wait_for(b.start(), PATIENCE); await settle()
+        res.append("running=%s held=%s" % (b.is_running, "".join("-" if can_bind(p) else "B" for p in world.WELL_KNOWN_PORTS)))
+        await asyncio.wait_for(b.stop(), PATIENCE); await settle()
+        res.append("running=%s held=%s" % (b.is_running, "".join("-" if can_bind(p) else "B" for p in world.WELL_KNOWN_PORTS)))
+    except Exception as e: res.append("raised " + type(e).__name__)
+    finally:
+        for t in list(getattr(b, "_transports", {}).values()):
+            if t and not t.is_closing(): t.close()
+        await settle()
+    return res
+
+
 async def bad_port_list():
     """a configured port no socket can take (a typo such as 200003): start raises something, and nothing is left listening"""
     res = []
@@ -265,6 +282,13 @@ def run(tier, rnd, out):
     seqs9 += [[(2, 0), (0, 0), (3, 0), (0, 0), (4, 0), (4, 1), (1, 0)], [(2, 1), (0, 0), (3, 1), (0, 0), (1, 0), (0, 0), (4, 1), (1, 0)], [(0, 0), (1, 0), (0, 0), (1, 0), (0, 0), (4, 0), (1, 0), (4, 0)],
               [(0, 0), (0, 0), (4, 0), (1, 0), (4, 0), (0, 0), (4, 1)]]
     run_sequences(out, "sequences-through-the-async-context-manager", 2, seqs9, via_context=True)
+    if world.well_known_ports():
+        try:
+            got = asyncio.run(default_ports())
+            lib.differential(out, "a-bridge-constructed-without-a-port-list", [{"step": "after start"}, {"step": "after stop"}][:len(got)], got, None,
+                             ["running=True held=BBBB", "running=False held=----"][:len(got)], lambda c: "SwitcherBridge(callback) with the default ports, " + c["step"])
+        finally: world.release_well_known_ports()
+    else: out.notes.append("the library's default ports were not available on this machine for a minute: stream a-bridge-constructed-without-a-port-list not run")
     got = asyncio.run(bad_port_list())
     lib.differential(out, "port-list-with-an-impossible-port", [{"ports": "two free ports and 200003"}, {"ports": "two free ports and -1"}], got, None,
                      ["start raised; running=False; first ports free=True"] * 2, lambda c: "start() on %s" % c["ports"])
